@@ -12,7 +12,7 @@ for p in props:
     path = os.path.join(HERE, "vf", "props", pid.lower() + ".py")
     mp = os.path.join(HERE, "vf", "props", pid.lower() + ".meta.json")
     m = json.load(open(mp)) if os.path.exists(mp) else None
-    if os.path.exists(path) and m and m.get("claimed", True):
+    if os.path.exists(path) and m and pid in META.get("accepted", []):
         checks.append({
             "property_id": pid,
             "quick_cmd": "./check %s --tier quick" % pid,
